@@ -144,7 +144,7 @@ def stream_entry_assemble(hasher, file, eccfile, entry_fields, max_block_size, h
         if curpos < header_size or constantmode: # header stage: constant rate
             rate = resilience_rates[0]
         else: # later stage 2 or 3: progressive rate
-            rate = feature_scaling(curpos, header_size, entry_fields["filesize"], resilience_rates[1], resilience_rates[2]) # find the rate for the current stream of data (interpolate between stage 2 and stage 3 rates depending on the cursor position in the file)
+            rate = feature_scaling(min(curpos, entry_fields["filesize"]), header_size, entry_fields["filesize"], resilience_rates[1], resilience_rates[2]) # find the rate for the current stream of data (interpolate between stage 2 and stage 3 rates depending on the cursor position in the file). The position is capped to the recorded filesize: if the file is bigger than recorded (--ignore_size with data appended, or a corrupted size field), extrapolating beyond stage 3 gives meaningless (even negative) rates, and thus block sizes that the ecc codec rejects with an exception.
         # From the rate, compute the ecc parameters
         ecc_params = compute_ecc_params(max_block_size, rate, hasher)
         # Extract the message block from input file, given the computed ecc parameters
